@@ -19,7 +19,7 @@ from __future__ import annotations
 import ast
 from typing import Any, Dict, List, Optional, Tuple
 
-from .astx import un
+from .astx import un, ValueIdentity
 
 
 class Unsupported(Exception):
@@ -105,6 +105,8 @@ def bool_ir(node: ast.AST, env: Dict[str, Any]) -> tuple:
                 p = ("not", ("lt", b, a))
             elif isinstance(op, ast.GtE):
                 p = ("not", ("lt", a, b))
+            elif isinstance(op, (ast.Is, ast.IsNot)):
+                raise ValueIdentity(node, un(left), un(right))        # both sides are integer expressions here
             else:
                 raise Unsupported(f"comparison {type(op).__name__}")
             out = p if out is None else ("band", out, p)
